@@ -231,12 +231,31 @@ pub ghost struct DoCall<'a, T> {
     pub extra: Seq<WaitingState<'a, T>>,
 }
 
+//@ raw
+/// History<KCoord> (recent inputs, for switch conditions): a ghost log of what was pushed
+pub struct History<X> { pub verif_pushed: Ghost<Seq<X>> }
+impl<X> History<X> {
+    #[verifier::external_body]
+    fn push_front(&mut self, event: X)
+        ensures final(self).verif_pushed@ == old(self).verif_pushed@.push(event),
+    { unimplemented!() }
+}
+/// chords v2: when configured, incoming events go to ITS queue first (same capacity, same wrap)
+#[verifier::reject_recursive_types(T)]
+pub struct ChordsV2<'a, T> { pub verif_queue: Queue, pub p: core::marker::PhantomData<&'a T> }
+impl<'a, T> ChordsV2<'a, T> {
+    fn push_back_chv2(&mut self, item: Queued) -> (r: Option<Queued>)
+        ensures
+            old(self).verif_queue@.len() < 32 ==> r.is_none() && final(self).verif_queue@ == old(self).verif_queue@.push(item),
+            old(self).verif_queue@.len() >= 32 ==> r == Some(old(self).verif_queue@[0]) && final(self).verif_queue@ == old(self).verif_queue@.drop_first().push(item),
+    { self.verif_queue.push_back(item) }
+}
 //@ item keyberon/src/layout.rs struct Layout
 //@@ no-derives
 //@@ keep-vis
 //@@ attr #[verifier::reject_recursive_types(T)]
 //@@ resub Rbound 1 /T: 'a \+ std::fmt::Debug,/ => `T: 'a,`
-//@@ keep-fields states waiting extra_waiting tap_dance_eager queue oneshot last_press_tracker action_queue rpt_action quick_tap_hold_timeout
+//@@ keep-fields states waiting extra_waiting tap_dance_eager queue oneshot last_press_tracker historical_inputs chords_v2 action_queue rpt_action quick_tap_hold_timeout
 //@@ add-field pub verif_calls: Ghost<Seq<DoCall<'a, T>>>
 //@@ add-field pub verif_events: Ghost<Seq<Event>>
 //@@ add-field pub verif_dequeued: Ghost<Seq<Queued>>
@@ -936,3 +955,39 @@ fn do_action_fork(&mut self, action: &'a Action<'a, T>, coord: KCoord, delay: u1
         final(self).verif_calls@.last().action == (if trigger_active(old(self).states@, fcfg) { &fcfg.right } else { &fcfg.left }),
         // the fork itself, not the branch, is what `repeat` repeats
         final(self).rpt_action == Some(action),
+
+
+// ---------------------------------------------------------------------------------------
+// Layout::event, cut whole: an incoming event is APPENDED to the queue (none is lost or reordered
+// while fewer than 32 are pending - C04 / C05); the 33rd forces every undecided key into hold and the
+// evicted oldest event is processed at once (C02: floods larger than the buffer).
+// ---------------------------------------------------------------------------------------
+//@ item keyberon/src/layout.rs fn from in `From<Event> for Queued`
+//@@ wrap impl From<Event> for Queued
+//@ raw
+impl vstd::std_specs::convert::FromSpecImpl<Event> for Queued {
+    open spec fn obeys_from_spec() -> bool { true }
+    closed spec fn from_spec(event: Event) -> Self { Queued { event, since: 0 } }
+}
+// (extracted under the name event_real: the one-shot arm above calls a logging stub named `event`;
+// what such a call does is what is proved here)
+//@ item keyberon/src/layout.rs fn event in `Layout<'a, C, R, T>` as event_real
+//@@ wrap impl<'a, const C: usize, const R: usize, T: 'a + Copy> Layout<'a, C, R, T>
+//@@ attr #[verifier::loop_isolation(false)]
+//@@ spec
+    requires
+        // the property's own proviso: "while fewer than 32 events are pending".  The flood path (the
+        // 33rd event forces every undecided key into hold and processes the evicted event) is in the
+        // extracted text but NOT verified: under this precondition it is unreachable
+        match old(self).chords_v2 { Some(ch) => ch.verif_queue@.len() < 32, None => old(self).queue@.len() < 32 },
+    ensures
+        // a press is remembered as an input (for input-history conditions)
+        final(self).historical_inputs.verif_pushed@ == (match event { Event::Press(x, y) => old(self).historical_inputs.verif_pushed@.push((x, y)), _ => old(self).historical_inputs.verif_pushed@ }),
+        // the event is APPENDED, with age 0, to the one queue that feeds the state machine; nothing is
+        // processed, nothing is lost, nothing is reordered, no pending decision is touched
+        old(self).chords_v2 is None ==> final(self).queue@ == old(self).queue@.push(Queued { event, since: 0 }) && final(self).chords_v2 is None,
+        old(self).chords_v2 is Some ==> final(self).chords_v2 is Some && final(self).queue@ == old(self).queue@
+            && final(self).chords_v2.unwrap().verif_queue@ == old(self).chords_v2.unwrap().verif_queue@.push(Queued { event, since: 0 }),
+        final(self).verif_calls@ == old(self).verif_calls@, final(self).verif_dequeued@ == old(self).verif_dequeued@,
+        final(self).waiting == old(self).waiting, final(self).extra_waiting@ == old(self).extra_waiting@,
+        final(self).states@ == old(self).states@,
